@@ -444,7 +444,6 @@ Proof.
   intros s s' [_ K] og' E. rewrite E in K. destruct (outgoing s) as [og|] eqn:Hog; [|contradiction]. apply K.
   intros e He. exists og. split; [exact Hog|exact He].
 Qed.
-Ltac by_before L := left; eapply keeps_before; [eapply L; [apply sub_ok|eassumption]|eassumption]; eassumption.
 
 Lemma step_entry_origin : forall s e s' o og' k q, step s e = (s', o) -> outgoing s' = Some og' -> In (k, q) og' ->
   from_before s (k, q) \/ In (Token q (fst k)) o.
